@@ -381,6 +381,10 @@ func streamGen(c *Ctx) {
 	// constructors may depend on there being a method)
 	files = append(files, genFile{pkg: "z.v1", goPackage: "example.com/gen/z/v1;zv1", services: []genService{{name: "Greeter", methods: []genMethod{{name: "Hello"}}}, {name: "Admin"}}})
 	files = append(files, genFile{pkg: "z.v2", goPackage: "example.com/gen/z/v2;zv2", services: []genService{{name: "Empty"}}})
+	// names that differ only in the case of a leading run of capitals are distinct names: the
+	// unexported identifiers derived from them must be distinct too
+	files = append(files, genFile{pkg: "caps.v1", goPackage: "example.com/gen/caps/v1;capsv1", services: []genService{
+		{name: "APIService", methods: []genMethod{{name: "IDToken"}, {name: "IdToken"}, {name: "GO", ss: true}, {name: "Go", cs: true}, {name: "HTTPGet"}, {name: "HttpGet"}}}}})
 	// long names: package, service and method names have no length limit; the synthesized doc
 	// comments contain them as single words
 	longPkg := "acme.platform.infrastructure.observability.telemetry.ingestion.pipeline.v1alpha1"
